@@ -61,6 +61,11 @@ BasesWF   == \A b \in Bases : WFTx(BaseTx[b]) /\ RoundTripTx(BaseTx[b]) /\ Sidec
 CanonicalR(r)  == r.ok => Marshal(r.tx) = in /\ WFTx(r.tx)
 CanonicalN(n)  == n.ok => EncodeNetwork(n.tx) = net /\ WFTx(n.tx)
 SidecarR(r)    == r.ok => SidecarFree(r.tx)
+(* the case followed by the first base transaction, as a list of two transactions *)
+Net1 == EncodeNetwork(BaseTx[1])
+lst  == EncLen(Len(net) + Len(Net1), 192) \o net \o Net1
+ListLaw(n) == /\ CanonicalList(lst)
+              /\ (n.ok => LET r == DecodeTxList(lst) IN r.ok /\ r.txs = << n.tx, BaseTx[1] >>)
 (* a one-byte payload cannot travel as a string, otherwise both readings agree *)
 NetMatches(r, n) == (Len(in) # 1) => (r.ok = n.ok /\ (r.ok => r.tx = n.tx))
 
@@ -73,7 +78,10 @@ Out(r) == IF r.ok THEN [ok |-> TRUE, typ |-> r.tx.typ, v |-> r.tx.v, sc |-> r.tx
 CONSTANT Emit
 Laws == kind # "start" =>
         LET r == DecodeBinary(in)  n == DecodeNetwork(net) IN
-        /\ CanonicalR(r) /\ CanonicalN(n) /\ SidecarR(r) /\ NetMatches(r, n)
+        /\ CanonicalR(r) /\ CanonicalN(n) /\ SidecarR(r) /\ NetMatches(r, n) /\ ListLaw(n)
         /\ (Emit => PrintT(<<"CASE", ToJson([base |-> base, kind |-> kind, pos |-> pos, sym |-> sym,
-                                              in |-> in, net |-> net, rbin |-> Out(r), rnet |-> Out(n)])>>))
+                                              in |-> in, net |-> net, rbin |-> Out(r), rnet |-> Out(n),
+                                              lst |-> lst, rlst |-> LET x == DecodeTxList(lst) IN
+                                                 IF x.ok THEN [ok |-> TRUE, bins |-> [i \in 1..Len(x.txs) |-> Marshal(x.txs[i])]]
+                                                 ELSE [ok |-> FALSE, c |-> x.c]])>>))
 =============================================================================
